@@ -68,6 +68,9 @@ type parseContext struct {
 	snippets map[string][]Node
 	macros   map[string][]string
 
+	// Amount of nodes inserted by import directives so far.
+	importedNodes int
+
 	fileLocation string
 }
 
